@@ -288,12 +288,25 @@ def load_dir(d):
     if ren:
         _apply_field_renames(js, ren)
     from .inline import inline_new_helpers, fn_renames, apply_fn_renames
+    from .inline import changed_fns, split_selector_joins
     fren = fn_renames(js)
     apply_fn_renames(js, fren)
+    changed = changed_fns(js)
     inlined = inline_new_helpers(js)
+    split = {}
+    for j in js:
+        if j["crate"] != "raft":
+            continue
+        for k, f in j["fns"].items():
+            if k in changed or f.get("root") in changed:
+                n = split_selector_joins(f)
+                if n:
+                    split[k] = n
     for j in js:
         facts.load_json(j)
     facts.inlined_helpers = inlined
     facts.fn_renames = fren
+    facts.changed_fns = sorted(changed)
+    facts.split_joins = split
     facts.field_renames = {"%s.%s" % (adt.split("::")[-1], rn): cn for (adt, cn), rn in ren.items()}
     return facts
